@@ -93,6 +93,9 @@ def map_ops_basic(reg, u, full_args=True):
                     f"{reg} remove {p}", f"{reg} remove_entry {p}"]
     for mask in ([0, 1, 2, 5, 10, 15, 7, 8] if full_args else [5, 10]):
         ops.append(f"{reg} retain {mask} 1")
+    # stateful predicates (the answer depends on the call number): 0x15555, 0x1AAAA, 0x13333, "reject one call"
+    for mask in (87381, 109226, 78643, 131071 - 8):
+        ops.append(f"{reg} retain {mask} 1")
     ops += [f"{reg} clear", f"{reg} len", f"{reg} is_empty", f"{reg} capacity", f"{reg} defaults"]
     for t in range(0, 5):
         ops.append(f"{reg} drain {t} drop")
@@ -138,6 +141,11 @@ def umap_templates(u, what):
     if "iter" in what:
         t += [f"u0 iter {k} 0 {sc}" for k in ("iter", "keys", "values", "iter_mut", "values_mut")
               for sc in ("lhnlhnlhnlhncl", "nxnn", "nnnnnc", "dDndD")]
+    if "consume" in what:
+        for take in (0, 1, 2, 3):
+            for e in ("drop", "forget"):
+                t += [f"u0 drain {take} {e}"] + [f"u0 into_iter {k} {take} {e}" for k in ("pairs", "keys", "values")]
+        t += ["u0 drop"]
     if "fmt" in what:
         t += ["u0 fmt debug", "u0 fmt debug#"]          # not `{:30?}`: `()` itself honours the width
     return t
@@ -246,7 +254,7 @@ def random_map_seq(o, rng, n, length, u, with_iters=True, with_forget=True, unsa
             p = rng.choice(["q", "k"])
             o.op(f"{reg} {rng.choice(['remove', 'remove_entry'])} {p}:{c}#0")
         elif r < 0.63:
-            o.op(f"{reg} retain {rng.randint(0, 31)} {rng.randint(0, 2)}")
+            o.op(f"{reg} retain {rng.choice([rng.randint(0, 31), 65536 + rng.randint(0, 65535)])} {rng.randint(0, 2)}")
         elif r < 0.66:
             o.op(f"{reg} {rng.choice(['clear', 'len', 'is_empty', 'capacity'])}")
         elif r < 0.71:
@@ -307,7 +315,7 @@ def random_set_seq(o, rng, n, length, u):
         elif r < 0.57:
             o.op(f"{reg} {rng.choice(['remove', 'take'])} {p}:{c}#0")
         elif r < 0.62:
-            o.op(f"{reg} retain {rng.randint(0, 31)}")
+            o.op(f"{reg} retain {rng.choice([rng.randint(0, 31), 65536 + rng.randint(0, 65535)])}")
         elif r < 0.65:
             o.op(f"{reg} {rng.choice(['clear', 'len', 'is_empty', 'capacity'])}")
         elif r < 0.70:
@@ -410,6 +418,7 @@ def gen_C02(o, rng, tier):
     for nn in range(0, n + 1):
         product_map(o, nn, tmpls, suffix=suffix)
     wide_map_product(o, tmpls, suffix=suffix, sizes=WIDE[:4])
+    umap_product(o, 2, {'consume', 'remove', 'bulk'})
     for nn in range(0, 3):
         clone_from_product(o, nn)
     # sets: drains / consuming iterators
@@ -513,6 +522,8 @@ def gen_C04_phase1(o, rng, tier):
             for seq in itertools.islice(itertools.product(u[:3], repeat=k), 0, 12):
                 xs = ",".join(f"{{k{c}}}={{v}}" for c in seq)
                 t.append(f"{reg} from_iter 1 [{xs}]")
+                if k == len(u) - 1:
+                    t.append(f"{reg} from_iter 0 [{xs}]")      # `Map::from(array)`: length = capacity
         if len(u) >= 2:
             t.append(f"{reg} gdm 1 [q:{u[0]}#0,q:{u[1]}#0]")
             t.append(f"{reg} gdm 1 [k:{u[0]}#7001,k:{u[1]}#7002,k:{u[-1]}#7003]")
@@ -538,6 +549,7 @@ def gen_C04_phase1(o, rng, tier):
                             "s0 alg intersection s1 cnn", "s0 retain 5", "s0 clear", "s0 drain 1 drop"] +
                            [f"s0 extend 1 [{{k{a}}},{{k{b}}}]" for a in u[:2] for b in u[:2]] +
                            [f"s0 from_iter 1 [{{k{a}}},{{k{b}}}]" for a in u[:2] for b in u[:2]] +
+                           ([f"s0 from_iter 0 [{{k{a}}},{{k{b}}}]" for a in u[:2] for b in u[:2]] if nn == 2 else []) +
                            [f"s0 insert {{k{a}}}" for a in u] + [f"s0 replace {{k{a}}}" for a in u] +
                            [f"s0 take q:{a}#0" for a in u]):
                     o.case(m0=0, m1=0, s0=nn, s1=nn)
@@ -712,7 +724,7 @@ def set_ops_basic(reg, u):
         t += [f"{reg} insert {{k{c}}}", f"{reg} replace {{k{c}}}"]
         for p in (f"q:{c}#0", f"k:{c}#0"):
             t += [f"{reg} contains {p}", f"{reg} get {p}", f"{reg} remove {p}", f"{reg} take {p}"]
-    for mask in (0, 5, 10, 15):
+    for mask in (0, 5, 10, 15, 87381, 109226, 78643, 131071 - 8):
         t.append(f"{reg} retain {mask}")
     t += [f"{reg} clear", f"{reg} len", f"{reg} is_empty", f"{reg} capacity", f"{reg} defaults"]
     for a, b in (("[]", "[3,5,3,9,5]"), ("[1,2]", "[2,7]"), ("[1]", "[1,1]"), ("[]", "[]"), ("[4,5,6]", "[6,5,4,3]"),
@@ -854,6 +866,8 @@ def gen_C10(o, rng, tier):
                             for c in u:
                                 o.op(f"s0 insert {o.k(c)}")
                             o.end()
+    # the zero-sized-value shape: keys with a destructor, values without one
+    umap_product(o, 2 if tier == "quick" else 3, {'consume'})
 
 
 def gen_C11(o, rng, tier):
@@ -1155,6 +1169,25 @@ def gen_C16(o, rng, tier):
             o.end()
     for nn in range(0, 3):
         extend_from_product(o, nn)
+    # arrays / sources of 4 and 6 items with repeats in every position pattern (`From<[_; N]>` when the
+    # length equals the capacity)
+    pats = [[1, 1, 2, 3], [1, 2, 1, 3], [1, 2, 3, 1], [1, 1, 2, 2], [1, 2, 2, 1], [1, 2, 1, 2], [1, 1, 1, 2], [1, 1, 1, 1],
+            [1, 2, 3, 4], [2, 1, 1, 3], [1, 1, 2, 3, 4, 5], [1, 2, 1, 3, 2, 4], [1, 2, 3, 3, 2, 1], [1, 1, 2, 2, 3, 3],
+            [1, 2, 3, 4, 5, 1], [1, 2, 1, 2, 1, 2]]
+    for pat in pats:
+        for cap in sorted({len(pat), 6}):
+            for pulls in (0, 1, 3):
+                o.case(m0=cap, m1=cap, s0=cap, s1=cap, tag="a")
+                xs = ",".join(f"{o.k(c)}={o.v()}" for c in pat)
+                o.op(f"m0 from_iter {pulls} [{xs}]", test=True)
+                for c in pat:
+                    o.op(f"m1 insert {o.k(c)} {o.v()}")
+                o.op("m0 len")
+                o.op("m0 iter iter 0 " + "n" * (len(pat) + 1))
+                ys = ",".join(o.k(c) for c in pat)
+                o.op(f"s0 from_iter {pulls} [{ys}]", test=True)
+                o.op("s0 iter " + "n" * (len(pat) + 1))
+                o.end()
     # extending sets that already hold 4..9 elements (block-wise duplicate scans)
     def ext(reg, u):
         L = len(u) - 1
